@@ -12,8 +12,9 @@ package c20
 
 import (
 	"context"
-	"os"
 	"fmt"
+	"hash/fnv"
+	"os"
 	"regexp"
 	"strconv"
 	"strings"
@@ -176,6 +177,15 @@ func layout(r *ev.Run, p progen.Program, c *counters) {
 		try("tight-line-comment-before-every-newline", strings.ReplaceAll(src, "\n", "// c\n"))
 		try("block-comment-before-every-newline", strings.ReplaceAll(src, "\n", " /* c */\n"))
 	}
+	hsum := fnv.New32a()
+	hsum.Write([]byte(src))
+	volume := hsum.Sum32()%97 == 0 || (thorough && hsum.Sum32()%11 == 0)
+	if volume {
+		try("12000-leading-blank-lines", strings.Repeat("\n", 12000)+src)
+		try("12000-trailing-blank-lines", src+strings.Repeat("\n", 12000))
+		try("12000-leading-comment-lines", strings.Repeat("# c\n", 12000)+src)
+		try("12000-leading-block-comments", strings.Repeat("/* c */ ", 12000)+src)
+	}
 	try("trailing-newline", src+"\n")
 	try("leading-blank-lines", "\n\n"+src)
 	try("trailing-line-comment", src+" // c")
@@ -209,6 +219,15 @@ func layout(r *ev.Run, p progen.Program, c *counters) {
 		try("block-then-line-comment-at-line-end", mk(" /* c */ // d\n"))
 		try("block-then-hash-comment-at-line-end", mk(" /* c */ # d\n"))
 		try("two-block-comments-at-line-end", mk(" /* c */ /* d */\n"))
+		if t.Stmt && volume {
+			// volume: more blank, whitespace-only, comment and CRLF lines in one gap than the parser's
+			// nesting limit (10000) - lines are not nesting, whatever is counted per line must be given back
+			try("12000-blank-lines-between-statements", mk(strings.Repeat("\n", 12000)))
+			try("12000-crlf-blank-lines-between-statements", mk(strings.Repeat("\r\n", 12000)))
+			try("12000-comment-lines-between-statements", mk("\n"+strings.Repeat("// c\n", 12000)))
+			try("12000-whitespace-lines-between-statements", mk("\n"+strings.Repeat(" \t\n", 12000)))
+			try("12000-semicolon-lines-between-statements", mk("\n"+strings.Repeat("\n", 6000)+strings.Repeat("/* c */\n", 6000)))
+		}
 		if t.Stmt {
 			try("blank-line-between-statements", mk("\n\n"))
 			try("blank-line-with-spaces-between-statements", mk("\n  \t\n"))
@@ -434,5 +453,5 @@ func Check(r *ev.Run, replay string) {
 	r.Set("layout_variants_parsed", int(c.variants))
 	r.Set("single_token_edits", int(c.edits))
 	r.Set("diagnostics_checked", int(c.errorsSeen))
-	r.Set("rule", "L: every corpus program x every token gap x 7 insertions, line break after every comma/operator/pipe (one at a time and all at once), line/block comments at every line end (also a block comment followed by a line comment, and two block comments), blank/comment lines between statements, CRLF; oracle: position-free reflection dump of the real AST equals the original's. D: every single-token deletion and duplication (each also with CRLF line ends), substitution (23 replacement tokens) and every prefix of every 4th corpus program (every 16th program in quick, 9 replacement tokens; quick also thins the 3-node control skeletons and the scoping family to every 16th program); oracle: error position inside the source, quoted line verbatim, message rendering does not fail. distinct = distinct diagnostic message heads")
+	r.Set("rule", "L: every corpus program x every token gap x 7 insertions, line break after every comma/operator/pipe (one at a time and all at once), line/block comments at every line end (also a block comment followed by a line comment, and two block comments), blank/comment lines between statements, CRLF, a line break at every other gap inside an unclosed ( or [ (rejected, or the same tree), 12000 blank / CRLF / whitespace-only / comment lines in one statement gap and in front of and behind the program (every 97th program, thorough every 11th); oracle: position-free reflection dump of the real AST equals the original's. D: every single-token deletion and duplication (each also with CRLF line ends), substitution (23 replacement tokens) and every prefix of every 4th corpus program (every 16th program in quick, 9 replacement tokens; quick also thins the 3-node control skeletons and the scoping family to every 16th program); oracle: error position inside the source, quoted line verbatim, message rendering does not fail. distinct = distinct diagnostic message heads")
 }
